@@ -120,8 +120,8 @@ void harness_readdir_all(void) { U32 bp, up, r, used, k, off = 0; setup_listing(
 /* second call on the already open directory with a cookie: resumes there; cookie 0 restarts from the beginning */
 void harness_readdir_resume(void) { U32 bp, up, r, cookie = nd8(), first; setup_listing(4); bp = gptr(48); up = gptr(4); V_ASSUME(up + 4 <= bp || up >= bp + 48);
     V_ASSUME(dir_n >= 2); V_ASSUME(cookie < (U32)dir_n);
-    r = wasi_snapshot_preview1__fd_readdir(0, dwfd, bp, 30, 0, up); V_ASSUME(r == 0);       /* opens the stream, consumes >= 1 entry */
-    r = wasi_snapshot_preview1__fd_readdir(0, dwfd, bp, 28, (U64)cookie, up); V_ASSUME(r == 0);
+    r = wasi_snapshot_preview1__fd_readdir(0, dwfd, bp, 25, 0, up); V_ASSUME(r == 0);       /* opens the stream, consumes the first entry (24 + 1 byte name) and reads on */
+    r = wasi_snapshot_preview1__fd_readdir(0, dwfd, bp, 26, (U64)cookie, up); V_ASSUME(r == 0);
     V_ASSUME(gle(up, 4) >= 24);
     first = (U32)gle(bp, 8) - 1;    /* index of the first entry delivered by the second call */
     V_ASSERT(first == cookie, "listing resumes at the entry named by the cookie; cookie 0 restarts from the first entry");
